@@ -54,12 +54,21 @@ var c12Alphabet = []wcall{
 	}},
 	{"WriteUint(7)", func(w ion.Writer) error { return w.WriteUint(7) }, func(a *refwriter.Automaton) { a.Value(rm.IntV(7), "WriteUint") }},
 	{"WriteSymbol(u)", func(w ion.Writer) error { return w.WriteSymbol(ion.NewSymbolTokenFromString("u")) }, func(a *refwriter.Automaton) { a.Value(rm.SymV("u"), "WriteSymbol") }},
+	// payloads of 64 bytes and more are kept by reference until the batch is emitted
+	{"WriteBlob(70 bytes)", func(w ion.Writer) error { return w.WriteBlob(c12Big70) }, func(a *refwriter.Automaton) { a.Value(rm.BlobV(c12Big70), "WriteBlob") }},
+	{"WriteClob(100 bytes)", func(w ion.Writer) error { return w.WriteClob(c12Big100) }, func(a *refwriter.Automaton) { a.Value(rm.ClobV(c12Big100), "WriteClob") }},
+	{"WriteBigInt(2^520)", func(w ion.Writer) error { return w.WriteBigInt(new(big.Int).Lsh(big.NewInt(1), 520)) }, func(a *refwriter.Automaton) {
+		a.Value(rm.BigV(new(big.Int).Lsh(big.NewInt(1), 520)), "WriteBigInt")
+	}},
 	{"Annotations(a,b)", func(w ion.Writer) error {
 		return w.Annotations(ion.NewSymbolTokenFromString("a"), ion.NewSymbolTokenFromString("b"))
 	}, func(a *refwriter.Automaton) { a.Annotation(rm.T("a")); a.Annotation(rm.T("b")) }},
 }
 
 const c12Core = 14
+
+var c12Big70 = bytes.Repeat([]byte("x"), 70)
+var c12Big100 = bytes.Repeat([]byte("c"), 100)
 
 var c12TS = rm.TS{Year: 2000, Month: 1, Day: 1, Prec: rm.PYear}
 
@@ -209,10 +218,10 @@ func init() {
 	mc.Register(&mc.Check{
 		ID:    "C12",
 		Title: "Any Writer call sequence ends in a correct stream or an error",
-		Rule: "EVERY call sequence of length <= L over a 14-call core alphabet {WriteInt(1), WriteString, WriteSymbolFromString(t), WriteNull, WriteSymbol(token with neither text nor ID), FieldName(f), Annotation(a), BeginList/EndList, BeginSexp/EndSexp, BeginStruct/EndStruct, Finish}, and every sequence of length <= L-1 over the whole 25-call interface (adds WriteClob, WriteBlob, WriteBool, WriteFloat, WriteDecimal, WriteTimestamp, WriteNullType, WriteBigInt, WriteUint, WriteSymbol(token), Annotations(a,b)), each followed by a final Finish, x 5 writer configurations {text, pretty, text with TextWriterQuietFinish, binary growing table, binary fixed table lacking t/u/b}, on the real Writers. " +
+		Rule: "EVERY call sequence of length <= L over a 14-call core alphabet {WriteInt(1), WriteString, WriteSymbolFromString(t), WriteNull, WriteSymbol(token with neither text nor ID), FieldName(f), Annotation(a), BeginList/EndList, BeginSexp/EndSexp, BeginStruct/EndStruct, Finish}, and every sequence of length <= L-1 over the whole 28-call interface (adds WriteClob, WriteBlob, a 70-byte blob, a 100-byte clob and 2^520 (payloads the binary writer keeps by reference), WriteBool, WriteFloat, WriteDecimal, WriteTimestamp, WriteNullType, WriteBigInt, WriteUint, WriteSymbol(token), Annotations(a,b)), each followed by a final Finish, x 5 writer configurations {text, pretty, text with TextWriterQuietFinish, binary growing table, binary fixed table lacking t/u/b}, on the real Writers. " +
 			"Oracle from observed return values only: no panic; after the first failing non-Finish call every later call fails; the same sequence twice gives identical bytes and results; when the final Finish returns nil the independent decoder accepts the bytes and they equal the stream the reference automaton builds from the successful calls (earlier Finish batches included). " +
 			"non-trivial = final Finish returned nil and the decoded bytes were compared with the automaton; distinct = distinct (config, per-call error pattern, output bytes) digests",
-		Bounds:      map[string]string{"quick": "L=5 (579,195 core + 406,901 full-interface sequences, x 5 configs)", "thorough": "L=6 (8,108,731 core + 10,172,526 full-interface sequences, x 5 configs)"},
+		Bounds:      map[string]string{"quick": "L=5 (579,195 core + 637,421 full-interface sequences, x 5 configs)", "thorough": "L=6 (8,108,731 core + 17,847,789 full-interface sequences, x 5 configs)"},
 		Assumptions: []string{"nil *big.Int / *Decimal arguments are Go-level misuse, not Writer calls, and are outside the alphabet", "refwriter automaton (Appendix A.2) and the independent decoders are the trusted reference"},
 		Body:        c12Body,
 		Tiers:       map[string]mc.Tier{"quick": {}, "thorough": {}},
